@@ -256,7 +256,9 @@ def message_kwargs(q: str, a: dict, pin: dict) -> dict:
 # ---------------------------------------------------------------------------
 
 _STRINGS = ['', 'a', 'user name', 'café über', '日本語の名前', 'emoji \U0001F3B5\U0001F600',
-            '\x00nul\\path\\file.mp3', 'x' * 255, 'y' * 256, 'é' * 150]
+            '\x00nul\\path\\file.mp3', 'x' * 255, 'y' * 256, 'é' * 150,
+            # strings that are not in a Unicode normal form: the wire carries the code points as given
+            'e\u0301 decomposed', '\u1112\u1161\u11ab jamo', '\u212b angstrom \ufb01 ligature', '\u00c5 vs A\u030a']
 
 
 def _boundary(t: str) -> list:
